@@ -1,5 +1,6 @@
 import DirectVerif.Lemmas.C17Nets
 import DirectVerif.Lemmas.C17ChanEmit
+import DirectVerif.Lemmas.C17Min
 import DirectVerif.Model.BatchSep
 /-!
 # C17 — every network in the zoo honours its shape contract for all input sizes
@@ -299,6 +300,41 @@ theorem reduce_expand_shapes (n k h w : Nat) :
   · have a' : ¬ 1 = k := fun e => a e.symm
     simp [broadcast, insertAxis, a, a']
 
+/-- **any inverse pair of permutes is a round trip** on every shape of that rank: if `p[q[i]] = i` for all `i` (the
+decidable `permInverse`, which the bridge checks for every `(argument permute, result permute)` pair found around a
+denoiser call in `direct/nn`), then `x.permute(*p).permute(*q)` has the shape of `x` — for non-square sizes and sizes
+that collide with the batch, coil or complex axes alike -/
+theorem permute_pair_roundtrip (p q : List Nat) (h : permInverse p q = true) (s : Shape) (hs : s.length = p.length) :
+    permute q (permute p s) = s := by
+  simp only [permInverse, Bool.and_eq_true, beq_iff_eq, List.all_eq_true, decide_eq_true_eq, List.mem_range] at h
+  obtain ⟨⟨hl, hq⟩, hi⟩ := h
+  apply List.ext_getElem
+  · simp [permute, ← hl, hs]
+  · intro i h1 h2
+    have hiq : i < q.length := by simpa [permute] using h1
+    have hqi : q[i] < p.length := hq _ (List.getElem_mem hiq)
+    have e := hi i hiq
+    rw [getD_of_lt _ _ hiq, getD_of_lt _ _ hqi] at e
+    simp only [permute, List.getElem_map]
+    rw [getD_of_lt _ _ (by simpa using hqi)]
+    simp only [List.getElem_map, e]
+    rw [getD_of_lt _ _ h2]
+
+/-- the channels-first permutations used in `direct/nn` are `toChannelsFirst lead rank`, their partners are inverse, and a
+transposing partner (`(0, 3, 2, 1)` for `(0, 2, 3, 1)`) is rejected -/
+theorem channels_first_perms :
+    toChannelsFirst 1 4 = toChannelsFirst4 ∧ toChannelsFirst 1 5 = toChannelsFirst3d ∧ toChannelsFirst 2 5 = toChannelsFirst5 ∧
+      permInverse toChannelsFirst4 toChannelsLast4 = true ∧ permInverse toChannelsFirst5 toChannelsLast5 = true ∧
+      permInverse toChannelsFirst3d toChannelsLast3d = true ∧ permInverse [0, 3, 1, 2] [0, 3, 2, 1] = false := by decide
+
+/-- the wrapper around a denoiser call: permute to channels-first, the denoiser replaces `cin` by `cout` channels, permute
+back — the outer tensor keeps its layout with `cout` in the last axis (image domain, per-coil k-space domain, 3-D / dynamic) -/
+theorem wrapper_shapes (n k z h w cin cout : Nat) :
+    permute toChannelsLast4 ((permute toChannelsFirst4 [n, h, w, cin]).set 1 cout) = [n, h, w, cout] ∧
+      permute toChannelsLast5 ((permute toChannelsFirst5 [n, k, h, w, cin]).set 2 cout) = [n, k, h, w, cout] ∧
+      permute toChannelsLast3d ((permute toChannelsFirst3d [n, z, h, w, cin]).set 1 cout) = [n, z, h, w, cout] :=
+  ⟨rfl, rfl, rfl⟩
+
 /-- **an unrolled network preserves shapes**: whatever the prologue, the blocks of one iteration, the number of
 iterations, batch size and coil count — every call of a (shape-preserving) denoiser sees and returns the *same*
 spatial size `sp`, and the same leading batch (`N`, or `N·coil` for `coil_to_batch`) -/
@@ -342,6 +378,73 @@ theorem unrolledCalls_eq_blocks (pre body : List Block) (iters n coil : Nat) (sp
   | zero => rfl
   | succ k ih => simp only [List.replicate_succ, List.flatten_cons, List.flatMap_append, ih]
 
+
+/-! ## minimum sizes of the other architectures (what is admissible, and that below it the network *fails*) -/
+
+/-- **3-D U-Net**: every axis is first padded to at least `2^L`, so the only requirement is that *some* axis reaches
+`2^(L+1)` — otherwise the bottleneck is a single voxel and `InstanceNorm3d` raises -/
+theorem unet3d_min_size (L : Nat) (s : Shape) : UAdm L (s.map (padPow2 L)) ↔ ∃ n ∈ s, 2 ^ (L + 1) ≤ n := unet3d_adm_iff L s
+
+theorem unet3d_fails_below_min (L : Nat) (s : Shape) (stk tr : List Shape) (h : ¬ ∃ n ∈ s, 2 ^ (L + 1) ≤ n) :
+    ∃ e, run (unet3d UnetP.std L) ⟨s, stk, tr⟩ = .error e :=
+  unet3d_fails L s stk tr fun a => h ((unet3d_adm_iff L s).mp a)
+
+/-- the normalised 3-D U-Net pads to multiples of 16 first: admissible iff some padded axis reaches `2^(L+1)` (for
+`L ≤ 3` every non-empty volume; for `L = 4` some axis must exceed 16) -/
+theorem normunet3d_min_size (L : Nat) (s : Shape) :
+    UAdm L ((s.map mult16).map (padPow2 L)) ↔ ∃ n ∈ s, 2 ^ (L + 1) ≤ mult16 n := by
+  rw [unet3d_adm_iff]
+  simp only [List.mem_map]
+  constructor
+  · rintro ⟨_, ⟨n, hn, rfl⟩, h⟩; exact ⟨n, hn, h⟩
+  · rintro ⟨n, hn, h⟩; exact ⟨_, ⟨n, hn, rfl⟩, h⟩
+
+theorem normunet3d_fails_below_min (L : Nat) (s : Shape) (stk tr : List Shape) (h : ¬ ∃ n ∈ s, 2 ^ (L + 1) ≤ mult16 n) :
+    ∃ e, run (normUnet3d UnetP.std L) ⟨s, stk, tr⟩ = .error e :=
+  normUnet3d_fails L s stk tr fun a => h ((normunet3d_min_size L s).mp a)
+
+theorem normunet_fails_below_min (L : Nat) (s : Shape) (stk tr : List Shape) (hs : ∀ n ∈ s, 1 ≤ n) (h : ¬ UAdm L (s.map mult16)) :
+    ∃ e, run (normUnet UnetP.std L) ⟨s, stk, tr⟩ = .error e := normUnet_fails L s stk tr hs h
+
+/-- **DUB**: exactly the axes `≥ 2` are admissible (the reflect pad of an odd axis needs a neighbour) … -/
+theorem dub_min_size (n : Nat) : dubAxisOk n = true ↔ 2 ≤ n := dubAxisOk_iff n
+
+/-- … and below that it raises -/
+theorem dub_fails_below_min (e : Bool) (s : Shape) (stk tr : List Shape) (hs : ∀ n ∈ s, 1 ≤ n) (h : ∃ n ∈ s, n < 2) :
+    ∃ err, run (dub DidnP.std e) ⟨s, stk, tr⟩ = .error err := dub_fails e s stk tr hs h
+
+/-- **DIDN**: exactly the axes `≥ 3` (the strided input convolution halves, the first DUB needs `≥ 2`) … -/
+theorem didn_min_size (n : Nat) : didnAxisOk n = true ↔ 3 ≤ n := didnAxisOk_iff n
+
+theorem didn_fails_below_min (ndubs nconv : Nat) (skip : Bool) (s : Shape) (stk tr : List Shape) (hs : ∀ n ∈ s, 1 ≤ n)
+    (hd : 1 ≤ ndubs) (h : ∃ n ∈ s, n < 3) :
+    ∃ err, run (didn DidnP.std ndubs nconv skip) ⟨s, stk, tr⟩ = .error err := didn_fails ndubs nconv skip s stk tr hs hd h
+
+/-- **ResNet, Conv2d, Conv2dGRU (replication or zero padding, dilated block included) have no minimum size**: every
+non-empty image, down to a single pixel or a single row, keeps its size (`resnet_shape_id`, `conv_shape_id`,
+`gru_shape_id` with `1 ≤ n`); the only exception … -/
+theorem no_minimum_size (nblocks m layers : Nat) (bn repl : Bool) (h w : Nat) (hh : 1 ≤ h) (hw : 1 ≤ w) :
+    (∃ t, run (resnet 3 1 nblocks) ⟨[h, w], [], []⟩ = .ok ⟨[h, w], [], t⟩) ∧
+      (∃ t, run (convNet 3 1 bn m) ⟨[h, w], [], []⟩ = .ok ⟨[h, w], [], t⟩) ∧
+      (∃ t, run (gru repl false layers) ⟨[h, w], [], []⟩ = .ok ⟨[h, w], [], t⟩) := by
+  have hs : ∀ n ∈ [h, w], 1 ≤ n := by simp [hh, hw]
+  exact ⟨resnet_shape_id nblocks _ [] [] hs, conv_shape_id bn m _ [] [] hs, gru_shape_id repl false layers _ [] [] hs (by simp)⟩
+
+/-- … is instance normalisation in the GRU gates: a single-pixel input raises `ValueError` (for every number of layers
+`≥ 1`, with replication or zero padding), it is never mapped to a wrong size -/
+theorem gru_instnorm_fails_single_pixel (repl : Bool) (layers : Nat) (s : Shape) (stk tr : List Shape) (hs : ∀ n ∈ s, 1 ≤ n)
+    (h1 : ¬ 1 < numel s) : run (gru repl true (layers + 1)) ⟨s, stk, tr⟩ = .error .value := by
+  simp only [gru, List.append_assoc]
+  exact run_append_err (gruLayers_instnorm_fails repl layers s stk tr hs h1)
+
+/-- MWCNN below its minimum (`mwcnn_min_size`: axes `≤ 2^(S−2)` for `S ≥ 2` scales): the reflect pad of a length-1 axis
+raises.  FULL STATEMENT: `∀ S s, (∀ n ∈ s, 1 ≤ n) → (∃ n ∈ s, mwAxisOk S n = false) → ∃ e, run (mwcnn MwP.std S) ⟨s, stk, tr⟩ =
+.error e`.  PROVED HERE: all 2-D sizes up to 35 × 35 and `S ≤ 5` (kernel evaluation); the general induction over the scales
+for the failing direction is missing. -/
+theorem mwcnn_fails_below_min_partial : ∀ S ∈ [1, 2, 3, 4, 5], ∀ h ∈ List.range 36, ∀ w ∈ List.range 36,
+    1 ≤ h → 1 ≤ w → (mwAxisOk S h && mwAxisOk S w) = false →
+      (match run (mwcnn MwP.std S) ⟨[h, w], [], []⟩ with | .error _ => true | .ok _ => false) = true := by
+  decide +kernel
 
 /-! ## full shapes `(N, C, *spatial)`: the channel arithmetic of the denoisers
 
@@ -472,6 +575,11 @@ example : (fullRun (unet UnetP.std 1) (unetC 3 5 7 1) 2 3 [5, 6]).toOption.map (
 example : (fullRun (mwcnn MwP.std 3) (mwcnnC true 4 3 3) 1 4 [7, 10]).toOption.map (·.final) = some [1, 4, 7, 10] := by decide
 example : (fullRun (didn DidnP.std 3 2 true) (didnC 2 2 5 3 2 true) 3 2 [5, 9]).toOption.map (·.final) = some [3, 2, 5, 9] := by decide
 example : (fullRun (resnet 3 1 2) (resnetC 2 3 4 true 1) 1 2 [1, 7]).toOption.map (·.final) = some [1, 3, 1, 7] := by decide
+example : run (unet3d UnetP.std 2) ⟨[7, 7, 7], [], []⟩ = .error .value := by decide
+example : (run (unet3d UnetP.std 2) ⟨[1, 1, 8], [], []⟩).toOption.map (·.cur) = some [1, 1, 8] := by decide
+example : (run (resnet 3 1 2) ⟨[1, 1], [], []⟩).toOption.map (·.cur) = some [1, 1] := by decide
+example : (run (gru false false 2) ⟨[1, 31], [], []⟩).toOption.map (·.cur) = some [1, 31] := by decide
+example : run (gru true true 2) ⟨[1, 1], [], []⟩ = .error .value := by decide
 example : mult16 17 = 32 ∧ mult16 16 = 16 ∧ mult16 1 = 16 ∧ pad16Lo 21 = 5 ∧ pad16Hi 21 = 6 := by decide
 example : unrolledCalls [] [⟨.perCoil, 2, 2⟩, ⟨.image, 2, 2⟩] 2 1 3 [5, 6] =
     [⟨[1, 2, 5, 6], [1, 2, 5, 6]⟩, ⟨[1, 2, 5, 6], [1, 2, 5, 6]⟩, ⟨[1, 2, 5, 6], [1, 2, 5, 6]⟩, ⟨[1, 2, 5, 6], [1, 2, 5, 6]⟩,
